@@ -56,7 +56,7 @@ def main():
         miss = [x["name"] for x in rs if x["breaks_property"] not in x.get("caught_by", [])]
         lines.append("| %d | %s | %d | %d | %s | %d | %s |\n" % (r, told[r], len(rs), conf, "not measured (5 were strengthened for before the first evaluation)" if frozen is None else str(frozen), len(now), " ".join(miss) or "—"))
     # cross-property table
-    lines.append("\nPer property (all rounds): number of seeded changes aimed at it, how many its own quick check catches now, and which *other* checks also report them (a check may only fire on a tree where its own property is broken too — every such case was looked at):\n\n| property | seeded | caught by own check | also reported by |\n|---|---|---|---|\n")
+    lines.append("\nPer property (all rounds): number of seeded changes aimed at it, how many its own quick check catches now, and which *other* checks also report them (a check may only fire on a tree where its own property is broken too — every such case of rounds 1-6 was looked at one by one, section 12 \"Cross-property alarms removed\"; from round 7 on the cross verdicts are those of the round's own full evaluation and were looked at where a check fired far from its subject, e.g. C17 / C18 on changes to `Frame::write`, which both really break):\n\n| property | seeded | caught by own check | also reported by |\n|---|---|---|---|\n")
     for p in ALL:
         rs = [x for x in s if x["breaks_property"] == p]
         own = sum(1 for x in rs if p in x.get("caught_by", []))
